@@ -152,8 +152,50 @@ fn verify(h: &RepoHandle, live: &[Live], step: usize) -> Result<(), String> {
     Ok(())
 }
 
+/// The size a file node RECORDS (`meta.size`) is the size `stat` reported when the node was created, not the length of the
+/// content the archiver stores: `backup -` / `--stdin-command` nodes record 0 (`Metadata::default()`), `/proc`-like files report
+/// 0 and deliver data, a file that is written while it is backed up records a smaller or a larger size.  Every history has such
+/// nodes: decided by the first content byte (so the same content records the same size in every version — the parent-based change
+/// detection compares the recorded size): 2/6 record 0 (stdin style), 1/6 half the length, 1/6 more than the length, 2/6 the
+/// real length.  What must be kept by prune and what reads back is the CONTENT, whatever the node records.
+pub fn recorded_size(content: &[u8]) -> Option<u64> {
+    let len = content.len() as u64;
+    match content.first()? % 6 {
+        0 | 1 => Some(0),
+        2 => Some(len / 2),
+        3 => Some(len + 1 + len / 3),
+        _ => None,
+    }
+}
+
+/// `MemSource` whose file nodes record `recorded_size` of their content
+struct RecSizeSource(MemSource);
+impl rustic_core::ReadSource for RecSizeSource {
+    type Open = std::io::Cursor<Vec<u8>>;
+    type Iter = std::vec::IntoIter<rustic_core::RusticResult<rustic_core::ReadSourceEntry<Self::Open>>>;
+    fn size(&self) -> rustic_core::RusticResult<Option<u64>> {
+        Ok(None)
+    }
+    fn entries(&self) -> Self::Iter {
+        // the root first, then the entries of the source in their order
+        let mut v: Vec<_> = rustic_core::ReadSource::entries(&self.0).collect();
+        for (item, e) in v.iter_mut().skip(1).zip(&self.0.entries) {
+            if let (Ok(item), repo::SrcKind::File(c)) = (item, &e.kind) {
+                if let Some(sz) = recorded_size(c) {
+                    item.node.meta.size = sz;
+                }
+            }
+        }
+        v.into_iter()
+    }
+}
+
 fn backup(h: &RepoHandle, src: &MemSource) -> Result<SnapshotFile, String> {
-    repo::backup(h, src, &BackupOptions::default(), SnapshotFile::default()).map_err(|e| format!("oracle-fail:backup-{}", errkind(&e)))
+    let run = || {
+        let repo = h.open()?.to_indexed_ids()?;
+        repo.archive(&BackupOptions::default(), &RecSizeSource(src.clone()), SnapshotFile::default(), &[std::path::PathBuf::from(repo::SRC_ROOT)])
+    };
+    run().map_err(|e| format!("oracle-fail:backup-{}", errkind(&e)))
 }
 
 /// all index files of the repository, decoded
